@@ -142,7 +142,7 @@ def _validate(case):
     fq = case["fqdn"]
     short = fq.split(".")[0]
     assert re.match(r"\A[a-z_][a-z0-9_-]*(\.[a-z_][a-z0-9_-]*)*\Z", fq), fq
-    assert not unsafe_short(short), short
+    assert case.get("allow_unsafe_short") or not unsafe_short(short), short
     dom = fq[len(short) + 1:]
     for h in pools["host"]:
         assert h in (short, fq) or (dom and h.endswith("." + dom) and re.match(
@@ -554,4 +554,17 @@ REGRESSIONS = [
         {"op": "str", "no_obf": [], "lines": [_ln("G ", ["ip", 0, 0, 0, " GH "])]},
         {"op": "str", "no_obf": [], "lines": [_ln("", ["ip", 0, 0, 0, " "], ["ip", 1, 0, 0, ""])]},
         {"op": "str", "no_obf": [], "lines": [_ln("", ["ip", 1, 0, 0, ""])]}]}),
+    # pinned known finding C09-short-name-substring (class excluded from generation: unsafe_short)
+    Reg("short-name-inside-issued-substitute", "history", {
+        "fqdn": "host2.corp.acme.org", "allow_unsafe_short": True,
+        "pools": {"ip": ["99.199.199.9"], "host": ["host2", "host2.corp.acme.org", "other.corp.acme.org"],
+                  "mac": ["52:54:00:aa:bb:cc"], "kw": []},
+        "ops": [{"op": "list", "no_obf": [], "lines": [_ln("", ["host", 2, 0, 0, ""])]}]},
+        expect="known", finding="C09-short-name-substring"),
+    Reg("short-name-inside-mac", "history", {
+        "fqdn": "ab.corp.acme.org", "allow_unsafe_short": True,
+        "pools": {"ip": ["99.199.199.9"], "host": ["ab", "ab.corp.acme.org", "other.corp.acme.org"],
+                  "mac": ["52:54:00:ab:cd:ef"], "kw": []},
+        "ops": [{"op": "list", "no_obf": [], "lines": [_ln("", ["mac", 0, 0, 0, ""])]}]},
+        expect="known", finding="C09-short-name-substring"),
 ]
